@@ -498,7 +498,7 @@ Fixpoint getin (fuel : nat) (src : value) (path : list value) : pathres :=
    Every call is logged and counted; the k-th call may cancel the context. *)
 Definition fn_known (f : name) : bool :=
   existsb (bytes_eqb f)
-    [bs "T"; bs "ARR"; bs "FAIL"; bs "PANIC_S"; bs "PANIC_E"; bs "PANIC_O"; bs "PANIC_N"; bs "CANCEL"; bs "CLOSER"].
+    [bs "T"; bs "ARR"; bs "FAIL"; bs "PANIC_S"; bs "PANIC_E"; bs "PANIC_O"; bs "PANIC_N"; bs "PANIC_C"; bs "CANCEL"; bs "CLOSER"].
 
 Definition injected_failure : M unit :=
   fun w => match w_fail_at w with
@@ -522,6 +522,8 @@ Definition call_fn (f : name) (args : list value) : M value :=
   else if bytes_eqb f (bs "PANIC_O") then fail PanicOther
   (* panic(nil): specified to end the run like any other non-string, non-error panic value *)
   else if bytes_eqb f (bs "PANIC_N") then fail PanicOther
+  (* an error value that wraps nothing (its Cause() is nil): still an error-typed panic *)
+  else if bytes_eqb f (bs "PANIC_C") then fail PanicErr
   else if bytes_eqb f (bs "CANCEL") then (do _ <- set_cancelled; ret VNone)
   else if bytes_eqb f (bs "CLOSER") then
     match args with
